@@ -210,7 +210,20 @@ func c11kExec(raw json.RawMessage) interface{} {
 	if m := c11kGuard("init", func() { fo.Init(); bo.Init(); bn.Init() }); m != "" {
 		return c11kObs{Err: "init-panic", Note: m}
 	}
-	defer c11kGuard("cleanup", func() { bo.Close(); bn.Close() })
+	// cleanup: close the instances and wait for their producers' shutdown BEFORE the broker goes away
+	// (a producer that loses its broker mid-flight retries, and sarama 1.34's retry path can crash
+	// the process in one of its own goroutines)
+	var live []*Kafka
+	defer func() {
+		for _, f := range live {
+			p := f.producer
+			c11kGuard("cleanup", f.Close)
+			if p != nil {
+				c11kWaitShutdown(p, 10*time.Second)
+			}
+		}
+	}()
+	live = append(live, bo, bn)
 	for _, q := range in.Pre {
 		obs.Pre = append(obs.Pre, c11kHandle(fo, in.Old.Header, q))
 		obs.BasePre = append(obs.BasePre, c11kHandle(bo, in.Old.Header, q))
@@ -220,7 +233,7 @@ func c11kExec(raw json.RawMessage) interface{} {
 		obs.Err, obs.Note = "inherit-panic", m
 		return obs
 	}
-	defer c11kGuard("cleanup", func() { fn.Close() })
+	live = append(live, fn)
 	if m := c11kGuard("close", func() { fo.Close() }); m != "" {
 		obs.Err, obs.Note = "close-panic", m
 		return obs
@@ -234,6 +247,9 @@ func c11kExec(raw json.RawMessage) interface{} {
 		} else {
 			return c11kObs{Err: "inconclusive", Note: "the old producer's shutdown did not finish within 10s", Shutdown: "timeout"}
 		}
+	}
+	if !in.Wait && oldProducer != nil {
+		defer c11kWaitShutdown(oldProducer, 10*time.Second)
 	}
 	for _, op := range in.Ops {
 		if op.G == 0 {
